@@ -571,6 +571,10 @@ pub enum Error {
     #[snafu(display("Delegated roles are not consistent for {}", name))]
     DelegatedRolesNotConsistent { name: String },
 
+    /// A delegated role is delegated to again by itself or by one of its own delegates.
+    #[snafu(display("Delegated role {} is part of a delegation cycle", name))]
+    DelegationCycle { name: String },
+
     /// Target doesn't have proper permissions from parent delegations
     #[snafu(display("Invalid file permissions"))]
     InvalidPath { source: crate::schema::Error },
